@@ -24,6 +24,7 @@ pub enum Error {
 // std::io::{Error, ErrorKind} under the names the code uses
 pub mod io { pub use super::IoErrorKind as ErrorKind; pub use super::IoError as Error; }
 pub struct IoError { pub kind: IoErrorKind }
+#[derive(PartialEq, Eq, Structural)]
 pub enum IoErrorKind { UnexpectedEof, ConnectionReset, ConnectionAborted, BrokenPipe, NotConnected, Other }
 impl IoError { pub fn kind(&self) -> (r: IoErrorKind) ensures r == self.kind { match self.kind { IoErrorKind::UnexpectedEof => IoErrorKind::UnexpectedEof, IoErrorKind::ConnectionReset => IoErrorKind::ConnectionReset, IoErrorKind::ConnectionAborted => IoErrorKind::ConnectionAborted, IoErrorKind::BrokenPipe => IoErrorKind::BrokenPipe, IoErrorKind::NotConnected => IoErrorKind::NotConnected, IoErrorKind::Other => IoErrorKind::Other } } }
 impl From<ReadError> for Error { #[verifier::external_body] fn from(e: ReadError) -> (r: Error) { unimplemented!() } }
@@ -246,6 +247,37 @@ impl Session {
         assert(wire_has_slots(self.transport_tx.h.sent_ok@, self.requests.m@));                 // OBL:C05.rpc.slot_exists_whenever_map_lock_is_free
 //@check-before-stmt /\.requests\s*\.lock\(\)/ 3 optional
         assert(wire_has_slots(self.transport_tx.h.sent_ok@, self.requests.m@));                 // OBL:C05.rpc.slot_exists_whenever_map_lock_is_free
+//@end
+}
+
+// ---------- Session::close: the outcome of <close-session> (C07: a peer that goes away surfaces as an error) ----------
+// what awaiting the reply future of request `id` yields: the server's answer, or the failure met while waiting for it
+// (transport error, end of stream) - arbitrary but fixed per request
+pub uninterp spec fn reply_outcome(id: MessageId) -> Result<(), Error>;
+// (stated variant-wise: Verus does not identify two values of type `()` that come from different calls)
+pub open spec fn same_outcome(a: Result<(), Error>, b: Result<(), Error>) -> bool { match a { Ok(_) => b is Ok, Err(e) => b matches Err(f) && f == e } }
+impl ReplyFuture {
+    #[verifier::external_body]
+    pub fn await_(self) -> (r: Result<(), Error>) ensures r == reply_outcome(self.message_id) { unimplemented!() }
+}
+#[verifier::external_body]
+pub fn drop_session(s: Session) -> (r: ()) ensures r == () { unimplemented!() }
+// awaiting an `async fn` of the sequential model: its value
+pub trait AwaitDone: Sized { fn await_(self) -> (r: Self) ensures r == self; }
+impl<T> AwaitDone for Result<T, Error> { fn await_(self) -> (r: Self) { self } }
+impl Session {
+// (sequential model: the returned future is run to completion where it is created, so the result is the pair
+// "request accepted / outcome of its reply")
+//@extract id=session_close file=netconf/src/session.rs impl=/impl<T: Transport> Session<T>/ fn=close rules=R1,R2,R3,R7,R16 r7map=result awaitcall=1
+//@+ sub=/.rpc::<CloseSession, _>(Builder::finish)=>.rpc(BuildFn);;async move {=>{;;drop(=>drop_session(/
+//@sig pub fn close(mut self) -> (res: Result<Result<(), Error>, Error>)
+//@contract
+        requires session_inv(self), self.last_message_id.0 < usize::MAX,
+        // close() reports exactly what became of its own <close-session> request: the outcome of the reply to a message-id
+        // that was fresh on this session.  In particular a transport failure or end of stream while waiting for that reply
+        // (the peer went away) is passed on as the error it is, never mapped to success.
+        ensures res matches Ok(done) ==> exists|id: MessageId| #![trigger reply_outcome(id)]
+                    !self.transport_tx.h.sent@.contains(id) && same_outcome(done, reply_outcome(id)),   // OBL:C07+C05.close.result_is_the_outcome_of_its_own_request
 //@end
 }
 
